@@ -254,7 +254,7 @@ def json_known_recomputation(st):
 
 
 def txn_obs(t):
-    return (t['description'], t['amount'], t['month'], list(t['tags']), t['source'], t.get('extra_fields') or None)
+    return (t.get('description'), t.get('amount'), t.get('month'), t.get('tags'), t.get('source'), t.get('extra_fields') or None)
 
 
 def view_merchants(cv):
@@ -308,7 +308,9 @@ def compare_data(data, st, J):
                     jt = [txn_obs(t) for t in j['transactions']]
                     mt = [txn_obs(t) for t in m['transactions']]
                     if jt != mt:
-                        diffs.append('transactions')
+                        names6 = ['description', 'amount', 'month', 'tags', 'source', 'extra_fields']
+                        diffs.append('transactions' if len(jt) != len(mt) else 'transactions: ' + ','.join(sorted(
+                            {names6[i] for a, b in zip(jt, mt) for i in range(6) if a[i] != b[i]})))
                     if diffs:
                         v.append(('C12/placeholder-in-data' if placeholder else 'C12/merchant-data-differs',
                                   {'where': where, 'merchant': m['name'], 'fields': diffs}))
